@@ -52,6 +52,7 @@ def run(ctx):
         chunk_stability(ctx, crate, crs, tag)
         no_ref_escape(ctx, crate, tag)
         guarded_index(ctx, crate, crs, tag)
+        ctx.guard("store-agreement" + tag, store_agreement, ctx, crate, crs, tag)
 
 
 def intern_memo(ctx, crate, crs, tag):
@@ -168,7 +169,7 @@ def dedup_map_types(ctx, crate, tag):
 
 def append_only(ctx, crate, crs, tag):
     arena_fns = [b for b in crate.bodies if b.d.get("impl_adt") == ARENA and b.kind == "AssocFn"]
-    ctx.floor("append-only" + tag, "Arena methods", len(arena_fns), 10)
+    ctx.floor("append-only" + tag, "Arena methods", len(arena_fns), 8)
     n = 0
     for b in arena_fns:
         sites = mutable_storage_access(b)
@@ -338,6 +339,48 @@ def no_ref_escape(ctx, crate, tag):
     if g is not None:
         cl = [t for i, t in g.calls() if t.get("f") and t["f"]["name"] in ("cloned", "clone", "copied")]
         ctx.ob("no-ref-escape" + tag, g.key, "clones-out", bool(cl), g.loc(), "values leave the map by clone")
+
+
+WRITE_CALLS = {"insert", "push", "extend", "entry", "push_back", "insert_copy", "try_insert", "replace"}
+LOOKUP_CALLS = {"get", "find", "iter", "contains_key", "get_key_value", "binary_search", "binary_search_by", "binary_search_by_key",
+                "position", "get_mut", "index", "find_map", "any", "into_iter", "raw_entry", "get_copy"}
+
+
+def store_agreement(ctx, crate, crs, tag):
+    """FrozenCopyMap: whatever storage field insert_copy can put an entry into is consulted by get_copy on *every* path
+    (writer / reader agreement).  A tiered or sharded store whose reader skips a tier on some path forgets entries."""
+    R = "store-agreement" + tag
+    ins = body_by_key(crate, FCM + "::insert_copy")
+    get = body_by_key(crate, FCM + "::get_copy")
+    if ins is None or get is None:
+        ctx.ob(R, FCM, "insert_copy/get_copy", False, "", "methods not found")
+        return
+
+    def fields_of_call(b, t):
+        lv = q.leaves(b, t["args"][0]) if t["args"] else set()
+        return {x.split(":", 1)[1].split(".")[-1] for x in lv if x.split(":", 1)[0] in ("field", "lfield")}
+    own = set()
+    a = crate.adts.get(FCM)
+    if a:
+        own = {f["name"] for f in a["variants"][0]["fields"]}
+
+    _foc = fields_of_call
+
+    def fields_of_call(b, t):          # noqa: F811  (restricted to the map's own storage fields)
+        return _foc(b, t) & own if own else _foc(b, t)
+    written = set()
+    for i, t in ins.calls():
+        f = t.get("f")
+        if f and f["name"] in WRITE_CALLS:
+            written |= fields_of_call(ins, t)
+    ctx.ob(R, ins.key, "writes-a-storage-field", bool(written), ins.loc(), "storage fields insert_copy can write: %s" % sorted(written))
+    rets = get.return_blocks()
+    for fld in sorted(written):
+        look = [i for i, t in get.calls() if t.get("f") and t["f"]["name"] in LOOKUP_CALLS and fld in fields_of_call(get, t)]
+        free = get.reachable(0, avoid=look)
+        ok = bool(look) and 0 not in look and not any(r in free for r in rets) or (0 in look)
+        ctx.ob(R, get.key, "every-path-consults:%s" % fld, ok, get.loc(),
+               "every path through get_copy looks the key up in `%s`, which insert_copy may have stored it in" % fld)
 
 
 def guarded_index(ctx, crate, crs, tag):
